@@ -409,6 +409,7 @@ impl Vm {
 
     pub fn reset(&mut self) {
         self.reset_stack();
+        self.range_cache.clear();
         self.chunks = self.core_chunks.clone();
         self.modules.retain(|&k, _| k.as_str() == "main");
         self.active_module = self.module("main");
